@@ -116,8 +116,18 @@ def run(ctx):
         if rec["error"]:
             ctx.mismatch("scheduled run raised", rec["inputs"][:2], rec["error"], None)
             continue
+        n0 = len(suspects)
         compare("3 worker threads, held search jobs %s" % json.dumps(rec["plan"]["search"], sort_keys=True), rec["inputs"], rec["rows"], rec["stats"])
         ctx.count("contexts", "adversarial_schedules")
+        if len(suspects) > n0:
+            # worker threads share the interpreter: under load a search can hit its wall-clock budget in this context only.  The
+            # schedule is run once more; a difference that does not come back the same way is timing, not the schedule.
+            rec2 = mcs.run_with_plan(rec["inputs"], rec["plan"], 0, 3)
+            keep = [x for x in suspects[n0:] if not isinstance(x[1], tuple) and x[1] in rec2["inputs"] and not rec2["error"]
+                    and len(rec2["rows"]) == len(rec2["inputs"]) and key(rec2["rows"][rec2["inputs"].index(x[1])]) == key(x[2])]
+            ctx.timing_unstable += len(suspects) - n0 - len(keep)
+            del suspects[n0:]
+            suspects.extend(keep)
     ctx.count("contexts", "orders", len(res["perms"]))
     ctx.count("contexts", "batch_sizes", len(sizes))
     # reproducibility filter
